@@ -140,7 +140,9 @@ C20_SIM_CN, C20_SIM_NV, C20_SIM_DEPTH = 3, 5, 300
 # element / key representations (refinement parameter of the harness): Int / Int keys; 300-byte String / 300-character
 # String keys; nested [Int]; Int under short and under 300-character String keys; nested dictionaries {String: Int} with
 # short / 300-character keys inside and outside
-C20_REFS = ["int", "str", "nest", "sk", "lk", "dnS", "dnL"]
+# bigI / bigU: Int / UInt elements, keys and values too large to be stored inline (1 << 8000); medI: a 1000-bit Int
+# (inline); i256: Int256 (always inline)
+C20_REFS = ["int", "str", "nest", "sk", "lk", "dnS", "dnL", "bigI", "bigU", "medI", "i256"]
 
 
 def _c20_cover_behaviours(ctx, name, base_id):
@@ -280,7 +282,7 @@ def c20_histories_with_health(ctx, nsim=None):
                          "msg": "behaviour %d (%s, representation %s) step %d: %s" % (f["id"], f.get("engine"), f.get("ref"), f["step"], f["msg"]),
                          "replay": {"behaviour": f.get("beh"), "source": f.get("src"), "engine": f.get("engine"), "refinement": f.get("ref")}})
 
-    key_refs = ["sk", "lk", "dnS", "dnL", "str"]
+    key_refs = ["sk", "lk", "dnS", "dnL", "str", "bigI"]
     n_hist, n_commits = 0, 0
     cover = dict_behs + arr_behs
     for k, r in enumerate(key_refs):
@@ -340,10 +342,10 @@ def check_C05(ctx):
         triples |= tr
         states += len(g.states)
         transitions += len(g.edges)
-    prefs = ["int", "str"]
+    prefs = ["int", "str", "big"]      # 8-byte Int, 300-byte String, non-inlinable Int (1 << 8000)
     if ctx.quick:
         # every transition under both engines; the payload representation alternates over the behaviours
-        cparts = {r: [b for i, b in enumerate(cover_behs) if prefs[i % 2] == r] for r in prefs}
+        cparts = {r: [b for i, b in enumerate(cover_behs) if prefs[i % len(prefs)] == r] for r in prefs}
     else:
         cparts = {r: cover_behs for r in prefs}
     csum = [_replay(ctx, binary, "c05", cparts[r], "cover-" + r, classify, env={"VALS_REFS": r})[0] for r in prefs]
@@ -368,7 +370,7 @@ def check_C05(ctx):
     if need - set(ops):
         raise Infra("simulated histories never exercised: %s" % sorted(need - set(ops)))
     via_ref = sum(1 for b in sim_behs for st in b["steps"] if st.get("root") in ("r", "q") and st["op"] in ("setP", "setX", "push", "writeI", "appendA", "delD"))
-    s2, _ = _replay(ctx, binary, "c05", sim_behs, "sim", classify)
+    s2, _ = _replay(ctx, binary, "c05", sim_behs, "sim", classify, env={"VALS_REFS": ",".join(prefs)})
     s2 = dict(s2, transactions=s2["transactions"] * s2["refinements"], steps=s2["steps"] * s2["refinements"])
     h0 = sim_behs[0]["steps"]
     ctx.add_sample({"kind": "simulated history (first steps, observations omitted)", "steps": [{k: v for k, v in st.items() if k != "obs"} for st in h0[:12]]})
